@@ -1,11 +1,900 @@
-//! C19 — check not built yet.
-use mc_core::Args;
-use serde_json::Value;
+//! C19 — Equihash verification accepts exactly the valid solutions.
+//!
+//! Subject: `equihash::is_valid_solution` (/repo/components/equihash), also reached through the
+//! mainnet block header of /repo/zcash_primitives/src/block.rs.
+//!
+//! Oracle: `reference.rs`, a bit-level verifier written from the protocol specification
+//! (distinct indices, lexicographic ordering of sibling blocks, per-level collisions on
+//! n/(k+1)-bit segments, zero XOR), independent of the crate's byte-level unpacking.
+//!
+//! Enumerated:
+//! * completeness — `solver.rs` lists *all* solutions of a set of (input, nonce) pairs for small
+//!   parameters (collision widths 8, 10, 12, 14, 16, 20 and — thorough — 24 bits; 8..64 indices;
+//!   5..16 hashes per BLAKE2b output); each must verify;
+//! * soundness — exhaustive neighbourhoods of every solution: every single-bit flip of solution,
+//!   input and nonce; every length 0..=2*len (four fillers); all 8! index orderings for k = 3 (all
+//!   transpositions, sub-tree swaps and rotations for larger k); every single-index substitution;
+//!   every duplication of one index over another and every self-cancelling block copy; thorough:
+//!   every pair substitution for (32,3);
+//! * solver-made adversarial inputs: *near misses* (all conditions hold except that one node of
+//!   the tree misses its collision in exactly one chosen bit — one search per (segment, bit), so
+//!   every compared bit of every level, including the final zero test, is on both sides) and
+//!   *repeated-index pseudo solutions* (every collision and the zero XOR hold, only distinctness
+//!   fails);
+//! * parameter grid — every (n,k) with n <= 520, k <= n+1, plus extreme u32 symbols, times solution
+//!   lengths {0, 1, expected-1, expected, expected+1} times fillers {00, ff}: must be `Err`, never a
+//!   panic and never `Ok`; a documented-supported pair with the right length must not be reported
+//!   as "invalid parameters";
+//! * header path — the mainnet block 415000 header parses, verifies, and every single-bit change of
+//!   its 1487 bytes is rejected (or no longer parses).
 
-pub fn replay(_kind: &str, _case: &Value) -> Result<(), String> {
-    Err("C19: check not built".into())
+mod reference;
+mod solver;
+
+use mc_core::{catch, Args, Run, SplitMix, Tier};
+use rayon::prelude::*;
+use reference::{decode, encode, reason, verify, Gen, P};
+use serde_json::{json, Value};
+use std::collections::{BTreeMap, HashSet};
+use std::hash::{Hash, Hasher};
+
+const HEADER_HEX: &str = include_str!("c19/mainnet_415000_header.hex");
+const HEADER_HASH: &str = "0000000001ab37793ce771262b2ffa082519aa3fe891250a1adb43baaf856168";
+/// Largest solution buffer the parameter grid allocates (covers every supported parameter pair);
+/// for n > 512 the larger bound admits (520,25), the one grid pair with n > 512 whose collision
+/// width and index width are otherwise representable (88 MB solution).
+const GRID_MAX_LEN: u128 = 8 << 20;
+const GRID_MAX_LEN_WIDE: u128 = 96 << 20;
+fn grid_max_len(n: u32) -> u128 {
+    if n > 512 && n <= 520 {
+        GRID_MAX_LEN_WIDE
+    } else {
+        GRID_MAX_LEN
+    }
 }
 
-pub fn run(_args: &Args) -> i32 {
-    mc_core::machinery_error("C19: check not built")
+// ---------------------------------------------------------------------------------------------
+// one real-vs-reference comparison (used by the sweep and by replay)
+
+fn real_verdict(n: u32, k: u32, input: &[u8], nonce: &[u8], soln: &[u8]) -> Result<Result<(), String>, String> {
+    catch(|| equihash::is_valid_solution(n, k, input, nonce, soln).map_err(|e| e.to_string()))
+}
+
+fn short_kind(display: &str) -> &'static str {
+    if display.contains("invalid parameters") {
+        "params"
+    } else if display.contains("collision") {
+        "collision"
+    } else if display.contains("ordered") {
+        "order"
+    } else if display.contains("duplicate") {
+        "dup"
+    } else if display.contains("non-zero") {
+        "nonzero"
+    } else {
+        "other"
+    }
+}
+
+/// `g` must be the generator for exactly (p, input, nonce).
+fn check_verify(g: &mut Gen, input: &[u8], nonce: &[u8], soln: &[u8]) -> Result<String, String> {
+    let p = g.p;
+    let want = verify(g, soln);
+    match real_verdict(p.n, p.k, input, nonce, soln) {
+        Err(pn) => Err(format!("panic: {pn} (reference: {})", reason(want))),
+        Ok(Ok(())) if want == 0 => Ok("accept".into()),
+        Ok(Ok(())) => Err(format!("accepted, but the reference rejects it: {}", reason(want))),
+        Ok(Err(e)) if want != 0 => Ok(format!("reject:{}|ref:{}", short_kind(&e), reason(want))),
+        Ok(Err(e)) => Err(format!("rejected ({e}), but the reference finds a valid solution")),
+    }
+}
+
+fn verify_case(p: P, input: &[u8], nonce: &[u8], soln: &[u8]) -> Value {
+    json!({"n": p.n, "k": p.k, "input": hex::encode(input), "nonce": hex::encode(nonce), "soln": hex::encode(soln)})
+}
+
+// ---------------------------------------------------------------------------------------------
+// parameter grid
+
+fn grid_expected_len(n: u32, k: u32) -> Option<u128> {
+    if k >= 100 {
+        return None;
+    }
+    let c = (n as u128) / (k as u128 + 1);
+    Some(((1u128 << k) * (c + 1)) / 8)
+}
+
+/// Parameters that the crate documents as verifiable (module docs of lib.rs and the requirement
+/// list in params.rs): whole-byte hashes, k >= 3, integer collision width; at least one hash per
+/// BLAKE2b output; collision segments and indices that the 32-bit unpacking accumulator can hold
+/// (segment >= 8 bits, index = segment + 1 <= 25 bits); at most as many indices as exist.
+fn documented_supported(n: u32, k: u32) -> bool {
+    if !(n % 8 == 0 && k >= 3 && k < n && n % (k + 1) == 0 && n <= 512) {
+        return false;
+    }
+    let c = n / (k + 1);
+    (8..=24).contains(&c) && k <= c + 1
+}
+
+fn check_grid(n: u32, k: u32, len: usize, fill: u8) -> Result<String, String> {
+    let buf = vec![fill; len];
+    match real_verdict(n, k, b"grid input", &[0u8; 32], &buf) {
+        Err(pn) => Err(format!("panic: {pn}")),
+        Ok(Ok(())) => Err("accepted a solution all of whose indices are equal".into()),
+        Ok(Err(e)) => {
+            let kind = short_kind(&e);
+            let right_len = grid_expected_len(n, k) == Some(len as u128);
+            if documented_supported(n, k) && right_len && kind == "params" {
+                return Err(format!("({n},{k}) is a documented supported parameter pair and the length {len} is right, yet: {e}"));
+            }
+            Ok(format!("{}{}:{kind}", if documented_supported(n, k) { "supported" } else { "unsupported" }, if right_len { "/len-ok" } else { "/len-bad" }))
+        }
+    }
+}
+
+fn grid_lengths(n: u32, k: u32) -> Vec<usize> {
+    let mut v = vec![0usize, 1];
+    if let Some(l) = grid_expected_len(n, k) {
+        if l <= grid_max_len(n) {
+            let l = l as usize;
+            v.extend([l.saturating_sub(1), l, l + 1]);
+        }
+    }
+    v.sort();
+    v.dedup();
+    v
+}
+
+fn run_grid(run: &Run) {
+    let mut pairs: Vec<(u32, u32)> = Vec::new();
+    for n in 0..=520u32 {
+        for k in 0..=n + 1 {
+            pairs.push((n, k));
+        }
+    }
+    let grid_pairs = pairs.len();
+    // extreme symbols outside the grid (u32 wrap points of k + 1, n / (k + 1), 1 << k)
+    let ext_n = [0u32, 8, 200, 512, 1 << 31, u32::MAX - 7, u32::MAX];
+    let ext_k = [0u32, 3, 31, 32, 63, 64, 127, 128, (1 << 31) - 1, 1 << 31, u32::MAX - 8, u32::MAX - 1, u32::MAX];
+    for n in ext_n {
+        for k in ext_k {
+            if !(n <= 520 && k <= n + 1) {
+                pairs.push((n, k));
+            }
+        }
+    }
+    let supported = pairs.iter().filter(|(n, k)| documented_supported(*n, *k)).count();
+    let too_long = pairs.iter().filter(|(n, k)| grid_expected_len(*n, *k).map_or(true, |l| l > grid_max_len(*n))).count();
+    type Fail = (u32, u32, usize, u8, String);
+    let results: Vec<(u64, BTreeMap<String, u64>, Vec<Fail>)> = pairs
+        .par_iter()
+        .map(|&(n, k)| {
+            let mut cnt = 0;
+            let mut out: BTreeMap<String, u64> = BTreeMap::new();
+            let mut fails = Vec::new();
+            for len in grid_lengths(n, k) {
+                for fill in [0x00u8, 0xff] {
+                    if len == 0 && fill == 0xff {
+                        continue;
+                    }
+                    cnt += 1;
+                    match check_grid(n, k, len, fill) {
+                        Ok(o) => *out.entry(format!("grid:{o}")).or_insert(0) += 1,
+                        Err(m) => fails.push((n, k, len, fill, m)),
+                    }
+                }
+            }
+            (cnt, out, fails)
+        })
+        .collect();
+    let mut total = 0;
+    // failures are reported in (n, k, len, fill) order so that the kept ones are deterministic
+    let mut failing_pairs = 0u64;
+    let mut fail_msgs: BTreeMap<String, u64> = BTreeMap::new();
+    for (c, o, fails) in results {
+        total += c;
+        for (k, v) in o {
+            run.outcome_n(&k, v);
+        }
+        if !fails.is_empty() {
+            failing_pairs += 1;
+        }
+        for (n, k, len, fill, m) in fails {
+            *fail_msgs.entry(m.clone()).or_insert(0) += 1;
+            run.fail("grid", format!("grid(n={n},k={k},len={len},fill={fill:02x})"), m, json!({"n": n, "k": k, "len": len, "fill": fill}));
+        }
+    }
+    if failing_pairs > 0 {
+        run.section("parameter_grid_failures", json!({"failing_pairs": failing_pairs, "by_message": fail_msgs}));
+    }
+    run.eval_distinct(total);
+    run.section(
+        "parameter_grid",
+        json!({
+            "pairs_in_grid": grid_pairs, "extreme_pairs": pairs.len() - grid_pairs, "cases": total,
+            "documented_supported_pairs": supported,
+            "pairs_whose_expected_length_exceeds_8MiB_(96MiB_for_n>512)_or_is_astronomic (only wrong lengths 0 and 1 tried; none of them is a supported pair)": too_long,
+        }),
+    );
+    run.sample(json!({"grid": {"n": 8, "k": 3, "len": 3, "fill": 0}, "expected": "Err (collision width 2 bits cannot be unpacked), not a panic"}));
+    run.sample(json!({"grid": {"n": 128, "k": 63, "len": 0, "fill": 0}, "expected": "Err, not an overflow in 2^k*(c+1)"}));
+}
+
+// ---------------------------------------------------------------------------------------------
+// solutions and their neighbourhoods
+
+struct Job {
+    p: P,
+    pair: usize,
+    /// enumerate every substitute value (else a boundary alphabet)
+    full_subst: bool,
+    pair_subst: bool,
+    /// also run the unpruned solver and try its repeated-index results
+    dup_solver: bool,
+}
+
+/// Which (segment, bit) near misses are searched: every bit of every segment for small row counts,
+/// both sides of every byte boundary of the unpacked segment for medium ones, the first and last
+/// bit of the first, the k-th and the last segment for large ones (each costs one solver run).
+fn near_combos(p: P, tier: Tier) -> Vec<(u32, u32)> {
+    let rows = p.num_rows();
+    let (all_up_to, boundary_up_to, corners_up_to): (u64, u64, u64) = match tier {
+        Tier::Quick => (1 << 11, 1 << 15, 1 << 17),
+        Tier::Thorough => (1 << 17, 1 << 21, 1 << 25),
+    };
+    let c = p.c();
+    let levels: Vec<u32> = (1..=p.k + 1).collect();
+    if rows <= all_up_to {
+        levels.iter().flat_map(|lv| (0..c).map(move |b| (*lv, b))).collect()
+    } else if rows <= boundary_up_to {
+        levels.iter().flat_map(|lv| boundary_bits(c).into_iter().map(move |b| (*lv, b))).collect()
+    } else if rows <= corners_up_to && rows > 1 << 21 {
+        // one solver run over 2^25 rows takes minutes of CPU and gigabytes: two corners only
+        vec![(1, c - 1), (p.k + 1, 0)]
+    } else if rows <= corners_up_to {
+        [1, p.k, p.k + 1].iter().flat_map(|lv| [0, c - 1].into_iter().map(move |b| (*lv, b))).collect()
+    } else {
+        Vec::new()
+    }
+}
+
+/// First/last bit of the segment and both sides of every byte boundary of its right-aligned
+/// byte representation.
+fn boundary_bits(c: u32) -> Vec<u32> {
+    let mut v = vec![0, c - 1];
+    let mut b = c;
+    while b > 8 {
+        b -= 8;
+        v.push(b - 1);
+        v.push(b);
+    }
+    v.sort();
+    v.dedup();
+    v
+}
+
+fn pair_material(p: P, j: usize) -> (Vec<u8>, Vec<u8>) {
+    // input/nonce lengths on both sides of the 128-byte BLAKE2b block, incl. empty strings
+    let ilen = [108usize, 0, 1, 72, 140, 64, 128, 129][j % 8];
+    let nlen = [32usize, 32, 32, 0, 32, 4, 0, 32][j % 8];
+    let mut sm = SplitMix(0xC19 ^ ((p.n as u64) << 32) ^ ((p.k as u64) << 24) ^ j as u64);
+    let mut input = vec![0u8; ilen];
+    sm.fill(&mut input);
+    if j == 0 {
+        let t = b"Equihash is an asymmetric PoW based on the Generalised Birthday problem.";
+        input = t.to_vec();
+    }
+    let mut nonce = vec![0u8; nlen];
+    if nlen > 0 {
+        nonce[0] = j as u8;
+        nonce[nlen - 1] ^= (j >> 8) as u8;
+    }
+    (input, nonce)
+}
+
+fn next_permutation(a: &mut [usize]) -> bool {
+    let n = a.len();
+    if n < 2 {
+        return false;
+    }
+    let mut i = n - 1;
+    while i > 0 && a[i - 1] >= a[i] {
+        i -= 1;
+    }
+    if i == 0 {
+        return false;
+    }
+    let mut j = n - 1;
+    while a[j] <= a[i - 1] {
+        j -= 1;
+    }
+    a.swap(i - 1, j);
+    a[i..].reverse();
+    true
+}
+
+struct Local<'a> {
+    run: &'a Run,
+    p: P,
+    tag: String,
+    evals: u64,
+    distinct: u64,
+    seen: HashSet<u64>,
+    outcomes: BTreeMap<String, u64>,
+    accepted_orderings: u64,
+    orderings_tried: u64,
+}
+
+fn case_hash(input: &[u8], nonce: &[u8], soln: &[u8]) -> u64 {
+    let mut h = std::collections::hash_map::DefaultHasher::new();
+    input.hash(&mut h);
+    nonce.hash(&mut h);
+    soln.hash(&mut h);
+    h.finish()
+}
+
+impl Local<'_> {
+    /// One case; `g` must be the generator of (p, input, nonce). Returns "accepted".
+    fn case(&mut self, g: &mut Gen, input: &[u8], nonce: &[u8], class: &str, what: &dyn Fn() -> String, soln: &[u8], dedupe: bool) -> bool {
+        self.evals += 1;
+        if !dedupe || self.seen.insert(case_hash(input, nonce, soln)) {
+            self.distinct += 1;
+        }
+        match check_verify(g, input, nonce, soln) {
+            Ok(o) => {
+                let acc = o == "accept";
+                *self.outcomes.entry(format!("{class}:{o}")).or_insert(0) += 1;
+                acc
+            }
+            Err(m) => {
+                self.run.fail("verify", format!("{}:{}", self.tag, what()), m, verify_case(self.p, input, nonce, soln));
+                false
+            }
+        }
+    }
+}
+
+fn subst_alphabet(p: P, sol: &[u32], cur: u32) -> Vec<u32> {
+    let max = (p.num_rows() - 1) as u32;
+    let m = 512 / p.n;
+    let mut v = vec![
+        0,
+        1,
+        2,
+        max,
+        max - 1,
+        max / 2,
+        max / 2 + 1,
+        cur ^ 1,
+        cur.wrapping_add(1) & max,
+        cur.wrapping_sub(1) & max,
+        cur.wrapping_add(m) & max,
+        cur.wrapping_sub(m) & max,
+        (cur / m) * m,
+        (cur / m) * m + m - 1,
+    ];
+    v.extend_from_slice(sol);
+    for b in 0..p.index_bits() {
+        v.push(cur ^ (1 << b));
+    }
+    v.retain(|x| *x <= max && *x != cur);
+    v.sort();
+    v.dedup();
+    v
+}
+
+/// Cases that need no solution: every length 0..=2*len with zeros and pseudo-random bytes, and
+/// pseudo-random strings of exactly the right length.
+fn baseline(l: &mut Local, g: &mut Gen, input: &[u8], nonce: &[u8], salt: u64) {
+    let len = l.p.soln_len();
+    let mut sm = SplitMix(0x19C ^ salt);
+    for n in 0..=2 * len {
+        l.case(g, input, nonce, "length", &|| format!("zeros-len{n}"), &vec![0u8; n], true);
+        l.case(g, input, nonce, "length", &|| format!("ones-len{n}"), &vec![0xffu8; n], true);
+        let mut r = vec![0u8; n];
+        sm.fill(&mut r);
+        l.case(g, input, nonce, "length", &|| format!("pseudo-len{n}/{salt}"), &r, true);
+    }
+    for i in 0..32 {
+        let mut r = vec![0u8; len];
+        sm.fill(&mut r);
+        l.case(g, input, nonce, "pseudo", &|| format!("pseudo{i}/{salt}"), &r, true);
+    }
+}
+
+/// Exhaustive neighbourhood of one solution.
+fn neighbourhood(l: &mut Local, job: &Job, input: &[u8], nonce: &[u8], sol: &[u32], first_of_pair: bool, tier: Tier) {
+    let p = job.p;
+    let run = l.run;
+    let mut g = Gen::new(p, input, nonce);
+    let base = encode(p, sol);
+    let len = base.len();
+
+    // A. the solution itself (completeness)
+    if !l.case(&mut g, input, nonce, "solution", &|| "solution".into(), &base, true) {
+        // the real code rejecting is reported by case(); the reference rejecting means a broken solver
+        run.require(verify(&mut g, &base) == 0, "solver produced something the reference rejects");
+    }
+    run.require(decode(p, &base).as_deref() == Some(sol), "reference encode/decode do not round-trip");
+    // B. every single-bit flip of the solution
+    for bit in 0..len * 8 {
+        let mut s = base.clone();
+        s[bit / 8] ^= 0x80 >> (bit % 8);
+        l.case(&mut g, input, nonce, "flip-soln", &|| format!("flip-soln-bit{bit}"), &s, true);
+    }
+    // C. every length 0..=2*len as a prefix of solution || solution
+    let mut dbl = base.clone();
+    dbl.extend_from_slice(&base);
+    for n in 0..=2 * len {
+        if n != len {
+            l.case(&mut g, input, nonce, "length", &|| format!("prefix-len{n}"), &dbl[..n], true);
+        }
+    }
+    // E. orderings
+    let ni = sol.len();
+    let try_order = |l: &mut Local, g: &mut Gen, perm: &[usize], class: &str| {
+        let idx: Vec<u32> = perm.iter().map(|i| sol[*i]).collect();
+        let s = encode(p, &idx);
+        l.orderings_tried += 1;
+        if l.case(g, input, nonce, class, &|| format!("order{:?}", perm), &s, true) {
+            l.accepted_orderings += 1;
+        }
+    };
+    let id: Vec<usize> = (0..ni).collect();
+    if p.k == 3 {
+        let mut perm = id.clone();
+        loop {
+            try_order(l, &mut g, &perm, "perm");
+            if !next_permutation(&mut perm) {
+                break;
+            }
+        }
+    } else {
+        try_order(l, &mut g, &id, "perm");
+        for a in 0..ni {
+            for b in a + 1..ni {
+                let mut q = id.clone();
+                q.swap(a, b);
+                try_order(l, &mut g, &q, "transpose");
+            }
+        }
+        // swapping the two halves of a block keeps every collision: only the ordering rule objects
+        for r in 1..=p.k {
+            let blk = 1usize << r;
+            for w in 0..ni / blk {
+                let mut q = id.clone();
+                q[w * blk..(w + 1) * blk].rotate_left(blk / 2);
+                try_order(l, &mut g, &q, "subtree-swap");
+            }
+        }
+        for s in 1..ni {
+            let mut q = id.clone();
+            q.rotate_left(s);
+            try_order(l, &mut g, &q, "rotate");
+        }
+        if tier == Tier::Thorough && ni <= 32 {
+            // every permutation inside each aligned block of 8 indices
+            for w in 0..ni / 8 {
+                let mut inner: Vec<usize> = (0..8).collect();
+                while next_permutation(&mut inner) {
+                    let mut q = id.clone();
+                    for (t, s) in inner.iter().enumerate() {
+                        q[w * 8 + t] = w * 8 + s;
+                    }
+                    try_order(l, &mut g, &q, "perm-block8");
+                }
+            }
+        }
+    }
+    // F. every single-index substitution
+    for pos in 0..ni {
+        let vals: Vec<u32> = if job.full_subst { (0..p.num_rows() as u32).filter(|v| *v != sol[pos]).collect() } else { subst_alphabet(p, sol, sol[pos]) };
+        for v in vals {
+            let mut idx = sol.to_vec();
+            idx[pos] = v;
+            l.case(&mut g, input, nonce, "subst", &|| format!("subst[{pos}]={v}"), &encode(p, &idx), true);
+        }
+    }
+    // G. duplicates: one index copied over another; every block copied over its sibling (all
+    //    collisions then hold trivially: only distinctness / strict ordering reject); a prefix
+    //    block repeated everywhere
+    for a in 0..ni {
+        for b in 0..ni {
+            if a != b {
+                let mut idx = sol.to_vec();
+                idx[b] = sol[a];
+                l.case(&mut g, input, nonce, "dup", &|| format!("dup[{b}]=[{a}]"), &encode(p, &idx), true);
+            }
+        }
+    }
+    for r in 1..=p.k {
+        let blk = 1usize << r;
+        for w in 0..ni / blk {
+            for dir in 0..2 {
+                let mut idx = sol.to_vec();
+                let (lo, hi) = (w * blk, w * blk + blk / 2);
+                for t in 0..blk / 2 {
+                    if dir == 0 {
+                        idx[hi + t] = sol[lo + t];
+                    } else {
+                        idx[lo + t] = sol[hi + t];
+                    }
+                }
+                l.case(&mut g, input, nonce, "dup-block", &|| format!("dup-block(r={r},w={w},dir={dir})"), &encode(p, &idx), true);
+            }
+        }
+    }
+    for r in 0..p.k {
+        let blk = 1usize << r;
+        let idx: Vec<u32> = (0..ni).map(|t| sol[t % blk]).collect();
+        l.case(&mut g, input, nonce, "dup-cancel", &|| format!("repeat-first-{blk}"), &encode(p, &idx), true);
+    }
+    // H. input and nonce: every single-bit flip, length changes, moved split point
+    for bit in 0..input.len() * 8 {
+        let mut i2 = input.to_vec();
+        i2[bit / 8] ^= 0x80 >> (bit % 8);
+        let mut g2 = Gen::new(p, &i2, nonce);
+        l.case(&mut g2, &i2, nonce, "flip-input", &|| format!("flip-input-bit{bit}"), &base, true);
+    }
+    for bit in 0..nonce.len() * 8 {
+        let mut n2 = nonce.to_vec();
+        n2[bit / 8] ^= 0x80 >> (bit % 8);
+        let mut g2 = Gen::new(p, input, &n2);
+        l.case(&mut g2, input, &n2, "flip-nonce", &|| format!("flip-nonce-bit{bit}"), &base, true);
+    }
+    {
+        let mut i2 = input.to_vec();
+        i2.push(0);
+        let mut g2 = Gen::new(p, &i2, nonce);
+        l.case(&mut g2, &i2, nonce, "len-input", &|| "input+00".into(), &base, true);
+        let mut n2 = nonce.to_vec();
+        n2.push(0);
+        let mut g2 = Gen::new(p, input, &n2);
+        l.case(&mut g2, input, &n2, "len-input", &|| "nonce+00".into(), &base, true);
+        if !input.is_empty() {
+            let i3 = &input[..input.len() - 1];
+            let mut g2 = Gen::new(p, i3, nonce);
+            l.case(&mut g2, i3, nonce, "len-input", &|| "input-last".into(), &base, true);
+        }
+        if !nonce.is_empty() {
+            let n3 = &nonce[1..];
+            let mut g2 = Gen::new(p, input, n3);
+            l.case(&mut g2, input, n3, "len-input", &|| "nonce-first".into(), &base, true);
+        }
+        // moving the boundary between input and nonce does not change input || nonce
+        let mut all = input.to_vec();
+        all.extend_from_slice(nonce);
+        for split in [0, all.len() / 2, all.len().saturating_sub(1), all.len()] {
+            let (a, b) = all.split_at(split);
+            let mut g2 = Gen::new(p, a, b);
+            l.case(&mut g2, a, b, "split", &|| format!("split@{split}"), &base, true);
+        }
+    }
+    // I. thorough: every pair substitution (distinct by construction from everything above except
+    //    the exact transposition, which is skipped here)
+    if job.pair_subst && first_of_pair {
+        let rows = p.num_rows() as u32;
+        for a in 0..ni {
+            for b in a + 1..ni {
+                for va in 0..rows {
+                    if va == sol[a] {
+                        continue;
+                    }
+                    for vb in 0..rows {
+                        if vb == sol[b] || (va == sol[b] && vb == sol[a]) {
+                            continue;
+                        }
+                        let mut idx = sol.to_vec();
+                        idx[a] = va;
+                        idx[b] = vb;
+                        l.case(&mut g, input, nonce, "subst2", &|| format!("subst[{a}]={va},[{b}]={vb}"), &encode(p, &idx), false);
+                    }
+                }
+            }
+        }
+    }
+}
+
+struct JobOut {
+    p: P,
+    pair: usize,
+    solutions: usize,
+    dup_pseudo_solutions: usize,
+    near_misses: usize,
+    near_combos: usize,
+    secs: (f64, f64, f64),
+    level_sizes: Vec<usize>,
+    evals: u64,
+    distinct: u64,
+    outcomes: BTreeMap<String, u64>,
+    accepted_orderings: u64,
+    orderings_tried: u64,
+    first_solution: Option<Vec<u32>>,
+    capped: bool,
+}
+
+fn run_job(run: &Run, job: &Job, tier: Tier) -> JobOut {
+    let p = job.p;
+    let (input, nonce) = pair_material(p, job.pair);
+    let cap = (p.num_rows() as usize).saturating_mul(64);
+    let t0 = std::time::Instant::now();
+    let solved = solver::solve(p, &input, &nonce, true, cap);
+    let t_solve = t0.elapsed().as_secs_f64();
+    let mut l = Local {
+        run,
+        p,
+        tag: String::new(),
+        evals: 0,
+        distinct: 0,
+        seen: HashSet::new(),
+        outcomes: BTreeMap::new(),
+        accepted_orderings: 0,
+        orderings_tried: 0,
+    };
+    let mut g = Gen::new(p, &input, &nonce);
+    l.tag = format!("({},{})#{}", p.n, p.k, job.pair);
+    baseline(&mut l, &mut g, &input, &nonce, job.pair as u64);
+    for (ord, sol) in solved.solutions.iter().enumerate() {
+        l.tag = format!("({},{})#{}/sol{}", p.n, p.k, job.pair, ord);
+        neighbourhood(&mut l, job, &input, &nonce, sol, ord == 0, tier);
+    }
+    // index lists with a repeated index that satisfy every collision condition and the zero XOR
+    let mut dup_n = 0;
+    let capped = solved.capped;
+    if job.dup_solver {
+        // a value source (up to 4096 lists under the row cap), not claimed complete
+        let d = solver::solve(p, &input, &nonce, false, cap);
+        dup_n = d.solutions.len();
+        l.tag = format!("({},{})#{}", p.n, p.k, job.pair);
+        for sol in &d.solutions {
+            l.case(&mut g, &input, &nonce, "dup-solver", &|| format!("dup-solver{:?}", sol), &encode(p, sol), true);
+        }
+    }
+    let t_nb = t0.elapsed().as_secs_f64();
+    // near misses: exactly one node misses its collision in exactly one bit
+    let combos = near_combos(p, tier);
+    let near_one = |&(lv, b): &(u32, u32)| (lv, b, solver::near_misses(p, &input, &nonce, lv, b, cap));
+    // (large row counts: one run at a time, each holds gigabytes)
+    let near: Vec<(u32, u32, solver::Solved)> = if p.num_rows() > 1 << 21 { combos.iter().map(near_one).collect() } else { combos.par_iter().map(near_one).collect() };
+    let mut near_n = 0;
+    for (lv, b, s) in &near {
+        near_n += s.solutions.len();
+        for sol in s.solutions.iter().take(256) {
+            l.case(&mut g, &input, &nonce, "near-miss", &|| format!("near-miss(level={lv},bit={b}){:?}", sol), &encode(p, sol), true);
+        }
+    }
+    JobOut {
+        p,
+        pair: job.pair,
+        near_misses: near_n,
+        near_combos: combos.len(),
+        secs: (t_solve, t_nb, t0.elapsed().as_secs_f64()),
+        solutions: solved.solutions.len(),
+        dup_pseudo_solutions: dup_n,
+        level_sizes: solved.level_sizes,
+        evals: l.evals,
+        distinct: l.distinct,
+        outcomes: l.outcomes,
+        accepted_orderings: l.accepted_orderings,
+        orderings_tried: l.orderings_tried,
+        first_solution: solved.solutions.first().cloned(),
+        capped,
+    }
+}
+
+fn jobs(tier: Tier) -> Vec<Job> {
+    let mut v = Vec::new();
+    // (n, k, input/nonce pairs, every substitute value?, pairs that also get pair substitution, unpruned solver?)
+    let mut add = |n: u32, k: u32, pairs: std::ops::Range<usize>, full_subst: bool, pair_subst_first: usize, dup_solver: bool| {
+        for pair in pairs {
+            v.push(Job { p: P { n, k }, pair, full_subst, pair_subst: pair < pair_subst_first, dup_solver });
+        }
+    };
+    // the costly jobs come first so that they start early
+    match tier {
+        Tier::Quick => {
+            add(80, 3, 1..2, false, 0, false); // pair 1 has solutions, pair 0 has none
+            add(96, 5, 0..1, false, 0, true);
+            add(80, 4, 0..1, false, 0, true);
+            add(64, 3, 0..1, false, 0, true);
+            add(72, 5, 0..2, false, 0, true);
+            add(56, 3, 0..2, false, 0, true);
+            add(48, 3, 0..2, true, 0, true);
+            add(56, 6, 0..4, true, 0, true);
+            add(32, 3, 0..8, true, 0, true);
+            add(40, 3, 0..8, true, 0, true);
+            add(48, 5, 0..8, true, 0, true);
+        }
+        Tier::Thorough => {
+            add(96, 3, 0..1, false, 0, false);
+            add(80, 3, 0..2, false, 0, false);
+            add(32, 3, 0..64, true, 6, true);
+            add(96, 5, 0..2, true, 0, true);
+            add(80, 4, 0..2, true, 0, true);
+            add(64, 3, 0..3, true, 0, true);
+            add(72, 5, 0..8, true, 0, true);
+            add(56, 3, 0..8, true, 0, true);
+            add(48, 3, 0..8, true, 0, true);
+            add(56, 6, 0..16, true, 0, true);
+            add(40, 3, 0..64, true, 0, true);
+            add(48, 5, 0..64, true, 0, true);
+        }
+    }
+    v
+}
+
+// ---------------------------------------------------------------------------------------------
+// the real header path
+
+fn header_bytes() -> Vec<u8> {
+    hex::decode(HEADER_HEX.trim()).expect("header hex")
+}
+
+/// `flip`: None = the vector itself, Some(b) = bit b (most significant first) of the serialized
+/// header inverted before parsing. `base` may carry a warm generator for the unmodified
+/// (input, nonce).
+fn check_header(flip: Option<usize>, base: Option<&mut (Vec<u8>, Vec<u8>, Gen)>) -> Result<String, String> {
+    use zcash_primitives::block::BlockHeader;
+    let mut bytes = header_bytes();
+    if let Some(b) = flip {
+        if b >= bytes.len() * 8 {
+            return Err("bit out of range".into());
+        }
+        bytes[b / 8] ^= 0x80 >> (b % 8);
+    }
+    let header = match catch(|| BlockHeader::read(&bytes[..])) {
+        Ok(Ok(h)) => h,
+        // the header codec itself is C03's subject
+        Ok(Err(_)) => return if flip.is_some() { Ok("header:no-longer-parses".into()) } else { Err("the mainnet header vector does not parse".into()) },
+        Err(_) => return if flip.is_some() { Ok("header:parse-panic".into()) } else { Err("the mainnet header vector does not parse".into()) },
+    };
+    let mut raw = Vec::new();
+    header.write(&mut raw).map_err(|e| format!("header.write: {e}"))?;
+    if flip.is_none() {
+        if header.hash().to_string() != HEADER_HASH || raw != bytes {
+            return Err("the embedded header vector is not mainnet block 415000".into());
+        }
+    }
+    if raw.len() < 140 {
+        return Err("serialized header shorter than 140 bytes".into());
+    }
+    let input = raw[..108].to_vec();
+    let nonce = header.nonce.to_vec();
+    let soln = header.solution.clone();
+    let p = P { n: 200, k: 9 };
+    let r = match base {
+        Some((bi, bn, g)) if *bi == input && *bn == nonce => check_verify(g, &input, &nonce, &soln),
+        _ => check_verify(&mut Gen::new(p, &input, &nonce), &input, &nonce, &soln),
+    }?;
+    match (flip, r.as_str()) {
+        (None, "accept") => Ok("header:accept".into()),
+        (None, o) => Err(format!("the mainnet header's solution is not accepted: {o}")),
+        (Some(_), o) => Ok(format!("header:{o}")),
+    }
+}
+
+fn run_header(run: &Run) {
+    let bytes = header_bytes();
+    match check_header(None, None) {
+        Ok(o) => run.outcome(&o),
+        Err(m) => run.fail("header", "header(mainnet-415000)".into(), m, json!({"flip": Value::Null})),
+    }
+    let raw_input = bytes[..108].to_vec();
+    let raw_nonce = bytes[108..140].to_vec();
+    let nbits = bytes.len() * 8;
+    let outs: Vec<BTreeMap<String, u64>> = (0..nbits)
+        .into_par_iter()
+        .fold(
+            || (None::<(Vec<u8>, Vec<u8>, Gen)>, BTreeMap::<String, u64>::new()),
+            |(mut base, mut out), bit| {
+                if base.is_none() {
+                    base = Some((raw_input.clone(), raw_nonce.clone(), Gen::new(P { n: 200, k: 9 }, &raw_input, &raw_nonce)));
+                }
+                let region = if bit < 140 * 8 {
+                    "pow-header"
+                } else if bit < 143 * 8 {
+                    "length-prefix"
+                } else {
+                    "solution"
+                };
+                match check_header(Some(bit), base.as_mut()) {
+                    Ok(o) => *out.entry(format!("{o}@{region}")).or_insert(0) += 1,
+                    Err(m) => run.fail("header", format!("header(mainnet-415000,flip-bit{bit})"), m, json!({"flip": bit})),
+                }
+                (base, out)
+            },
+        )
+        .map(|(_, out)| out)
+        .collect();
+    for o in outs {
+        for (k, v) in o {
+            run.outcome_n(&k, v);
+        }
+    }
+    run.eval_distinct(nbits as u64 + 1);
+    run.section("header_path", json!({"vector": "mainnet block 415000 header (1487 bytes, from zcash_primitives/src/block.rs tests)", "single_bit_changes": nbits}));
+}
+
+// ---------------------------------------------------------------------------------------------
+
+pub fn replay(kind: &str, case: &Value) -> Result<(), String> {
+    let num = |v: &Value| v.as_u64().unwrap_or(0);
+    match kind {
+        "verify" => {
+            let p = P { n: num(&case["n"]) as u32, k: num(&case["k"]) as u32 };
+            let hx = |v: &Value| hex::decode(v.as_str().unwrap_or("")).map_err(|e| e.to_string());
+            let (input, nonce, soln) = (hx(&case["input"])?, hx(&case["nonce"])?, hx(&case["soln"])?);
+            check_verify(&mut Gen::new(p, &input, &nonce), &input, &nonce, &soln).map(|_| ())
+        }
+        "grid" => check_grid(num(&case["n"]) as u32, num(&case["k"]) as u32, num(&case["len"]) as usize, num(&case["fill"]) as u8).map(|_| ()),
+        "header" => check_header(case["flip"].as_u64().map(|b| b as usize), None).map(|_| ()),
+        _ => Err(format!("unknown kind {kind}")),
+    }
+}
+
+pub fn run(args: &Args) -> i32 {
+    let run = Run::new(args, "exploration");
+    run.set_rule(
+        "(a) every solution listed by a complete Wagner solver for each (parameters, input, nonce) job, and its exhaustive neighbourhood \
+         (each single-bit flip of solution/input/nonce, each length 0..=2*len, all 8! orderings for k=3 or all transpositions, sub-tree swaps \
+         and rotations otherwise, each single-index substitution, each index duplication and self-cancelling block copy, index lists with a \
+         repeated index that pass every collision test, taken from the unpruned solver (up to 4096 per job, a value source), near misses from the solver (one node misses its collision in exactly one bit; per (segment, bit) up to 256 per job), pseudo-random strings); a case is distinct by (parameters, input, nonce, solution bytes); \
+         (b) every (n,k) with n<=520, k<=n+1 plus extreme u32 symbols x lengths {0,1,expected-1,expected,expected+1} x fillers {00,ff}; \
+         (c) every single-bit change of the mainnet block 415000 header. Oracle: bit-level reference verifier written from the specification",
+    );
+    run.assume("BLAKE2b (blake2b_simd) is trusted; the reference derives X_i from it with its own personalisation/slicing code");
+    run.assume("a solution must consist of distinct indices (Equihash paper, property statement); given distinctness the specification's lexicographic block order and the crate's leading-index order coincide, and without it both reject");
+    run.assume("parameters the crate must support = its documented requirement list (n multiple of 8, 3 <= k < n, (k+1) | n) restricted to what its 32-bit unpacking can represent (n <= 512, collision width 8..=24 bits, k <= width+1); for those a right-length solution must not be reported as 'invalid parameters'. Outside that set only 'Err, no panic, never Ok' is demanded");
+    run.assume("grid fillers 00 and ff decode to 2^k equal indices, which is never a solution for k >= 1");
+
+    // (b) parameter grid
+    run_grid(&run);
+    // (c) header path
+    run_header(&run);
+    // (a) solutions and neighbourhoods
+    let js = jobs(args.tier);
+    let outs: Vec<JobOut> = js.par_iter().map(|j| run_job(&run, j, args.tier)).collect();
+    let mut per_param: BTreeMap<String, (usize, usize, usize, u64, u64, u64, usize, usize)> = BTreeMap::new();
+    let mut total_solutions = 0;
+    for o in &outs {
+        run.eval_distinct(o.distinct);
+        run.add_evaluations(o.evals - o.distinct);
+        for (k, v) in &o.outcomes {
+            run.outcome_n(k, *v);
+        }
+        if std::env::var("VERIF_C19_TIMING").is_ok() {
+            eprintln!("({},{})#{} solve {:.2}s neighbourhoods done {:.2}s near misses done {:.2}s", o.p.n, o.p.k, o.pair, o.secs.0, o.secs.1, o.secs.2);
+        }
+        if o.capped {
+            run.cap_hit(&format!("solver row cap hit for ({},{}) pair {}", o.p.n, o.p.k, o.pair));
+        }
+        total_solutions += o.solutions;
+        let e = per_param.entry(format!("({},{})", o.p.n, o.p.k)).or_insert((0, 0, 0, 0, 0, 0, 0, 0));
+        e.0 += 1;
+        e.1 += o.solutions;
+        e.2 += o.dup_pseudo_solutions;
+        e.3 += o.evals;
+        e.4 += o.orderings_tried;
+        e.5 += o.accepted_orderings;
+        e.6 += o.near_misses;
+        e.7 += o.near_combos;
+        if let Some(s) = &o.first_solution {
+            if o.pair == 0 {
+                let (input, nonce) = pair_material(o.p, o.pair);
+                run.sample(json!({"n": o.p.n, "k": o.p.k, "input": hex::encode(&input), "nonce": hex::encode(&nonce), "indices": s,
+                    "minimal": hex::encode(encode(o.p, s)), "rows_per_level": o.level_sizes, "expected": "accepted; every neighbour rejected unless the reference accepts it"}));
+            }
+        }
+    }
+    run.section(
+        "solver_jobs",
+        json!(per_param
+            .iter()
+            .map(|(k, v)| json!({"params": k, "input_nonce_pairs": v.0, "solutions": v.1, "repeated_index_pseudo_solutions": v.2, "cases": v.3, "orderings_tried": v.4, "orderings_accepted": v.5,
+                "near_misses_found": v.6, "near_miss_level_bit_combinations": v.7}))
+            .collect::<Vec<_>>()),
+    );
+    run.require(total_solutions >= args.tier.pick(20, 200) || run.failure_count() > 0, "too few solutions found by the solver");
+    run.require(run.outcomes_distinct() >= 25 || run.failure_count() > 0, "fewer than 25 distinct (class, outcome) pairs observed");
+    run.finish(&replay)
 }
